@@ -91,7 +91,7 @@ func atThreshold(t *rapid.T, label string) (grow, idx int, ok bool) {
 }
 
 func c09Inject(t *rapid.T) (c09Input, bool) {
-	m := gen.DSLModel(t, gen.DSLOpts{Rich: true, Conditions: true, MultiLine: false, MaxTypes: 4, MaxRels: 4, Scale: true})
+	m := gen.DSLModel(t, gen.DSLOpts{Rich: true, Conditions: true, MultiLine: true, MaxTypes: 4, MaxRels: 4, Scale: true})
 	in := c09Input{Model: m}
 	kind := rapid.SampledFrom(injectionKinds).Draw(t, "injKind")
 	inj := injection{Kind: kind}
